@@ -41,7 +41,8 @@ class C02(Prop):
     deps = DECODER_LAYOUT + ["layout:enum OperationStatus", "layout:struct OperationStatusAirborne", "layout:struct OperationStatusSurface",
             "layout:struct CapabilityClassAirborne", "layout:struct CapabilityClassSurface", "layout:struct OperationalMode",
             "layout:enum ADSBVersion", "layout:enum BDS", "layout:struct ControlField"]
-    rule = ("all 32 format codes x lengths 1..32 x {zeros, ones, random} payloads; TC31 subtype x reserved groups x version sweep; "
+    rule = ("all 32 format codes x lengths 1..32 x {zeros, ones, random} payloads; TC31 subtype x reserved groups x version sweep; every payload selector "
+            "(32 type codes x control fields, sub-types of types 19/28/29/31, BDS code classes, CA values) at the exact frame length and with 1 / 4 further bytes; "
             "valid frames with 1..18 trailing bytes (compared with the same frame without them); non-trivial = distinct canonical outputs")
     claim = "decode accepts exactly the stated set (accept_iff over all buffers), window = first L bytes, trailing bytes irrelevant"
     def ops(self, rng, tier):
@@ -57,6 +58,27 @@ class C02(Prop):
                                 b = rand_frame(rng, df, tc=31)
                                 put(b, 37, 3, st); put(b, 40, 2, r0); put(b, 44, 2, r1); put(b, 56, 2, r2); put(b, 72, 3, ver)
                                 ops.append(hexop("F", b))
+        # every payload selector at the exact frame length and with further bytes behind the frame: all 32 type codes under DF17 and every DF18
+        # control field, all sub-types of types 19 / 28 / 29 / 31, every first MB byte class under DF20 / DF21, every CA under DF11 / DF24-31
+        # (each variant must consume exactly its format's bits: one bit more and the exact-length frame is rejected, one less and the tail shifts)
+        sel = []
+        for tc in range(32):
+            for st in (range(8) if tc in (19, 28, 29, 31) else (None,)):
+                for df, hd in [(17, 5)] + [(18, cf) for cf in ((0, 2, 5, 6, 7) if tier == "quick" else range(8))]:
+                    b = rand_frame(rng, df, tc=tc); put(b, 5, 3, hd)
+                    if st is not None: put(b, 37, 3, st)
+                    if tc == 31 and st is not None and st < 2: make_opstatus_ok(rng, b, st)
+                    sel.append(b)
+        for df in (20, 21):
+            for bds in [0x00, 0x10, 0x20, 0x30, 0x40, 0x50, 0x60, 0xff] + [rng.below(256) for _ in range(8)]:
+                sel.append(rand_frame(rng, df, bds=bds))
+        for df in (11, 24, 27, 31):
+            for ca in range(8):
+                b = rand_frame(rng, df); put(b, 5, 3, ca); sel.append(b)
+        for b in sel:
+            ops.append(hexop("F", b))
+            for k in (1, 4):
+                ops.append(hexop("F", b + bytearray(rng.bits(8 * k).to_bytes(k, "big"))))
         # trailing garbage
         n = 300 if tier == "quick" else 3000
         for i in range(n):
